@@ -25,6 +25,7 @@ import (
 	"os"
 	"path/filepath"
 	"reflect"
+	"runtime"
 	"sort"
 	"strings"
 	"testing/iotest"
@@ -134,21 +135,31 @@ type scriptPlugin struct {
 	caps     []pluginfw.Capability
 	describe string
 	// recorded
+	yield   bool // runtime.Gosched() at the entry of every command (concurrency family)
 	sigReq  *pluginfw.GenerateSignatureRequest
 	envReq  *pluginfw.GenerateEnvelopeRequest
 	envTime time.Time
 }
 
 func (p *scriptPlugin) GetMetadata(ctx context.Context, req *pluginfw.GetMetadataRequest) (*pluginfw.GetMetadataResponse, error) {
+	if p.yield {
+		runtime.Gosched()
+	}
 	return &pluginfw.GetMetadataResponse{Name: plugName, Description: "scripted", Version: plugVer, URL: "https://example.invalid",
 		SupportedContractVersions: []string{pluginfw.ContractVersion}, Capabilities: p.caps}, nil
 }
 
 func (p *scriptPlugin) DescribeKey(ctx context.Context, req *pluginfw.DescribeKeyRequest) (*pluginfw.DescribeKeyResponse, error) {
+	if p.yield {
+		runtime.Gosched()
+	}
 	return &pluginfw.DescribeKeyResponse{KeyID: req.KeyID, KeySpec: pluginfw.KeySpec(p.describe)}, nil
 }
 
 func (p *scriptPlugin) GenerateSignature(ctx context.Context, req *pluginfw.GenerateSignatureRequest) (*pluginfw.GenerateSignatureResponse, error) {
+	if p.yield {
+		runtime.Gosched()
+	}
 	p.sigReq = req
 	// a faithful plugin: it hashes with the algorithm it is told to use
 	h := map[pluginfw.HashAlgorithm]crypto.Hash{pluginfw.HashAlgorithmSHA256: crypto.SHA256, pluginfw.HashAlgorithmSHA384: crypto.SHA384, pluginfw.HashAlgorithmSHA512: crypto.SHA512}[req.Hash]
@@ -184,6 +195,9 @@ func (p *scriptPlugin) GenerateSignature(ctx context.Context, req *pluginfw.Gene
 }
 
 func (p *scriptPlugin) GenerateEnvelope(ctx context.Context, req *pluginfw.GenerateEnvelopeRequest) (*pluginfw.GenerateEnvelopeResponse, error) {
+	if p.yield {
+		runtime.Gosched()
+	}
 	p.envReq = req
 	ls, err := signature.NewLocalSigner(p.key.Chain, p.key.Key)
 	if err != nil {
@@ -546,6 +560,25 @@ type signerBoth interface {
 	notation.BlobSigner
 }
 
+// override: the concurrency family supplies the (shared) signer instance, the per-call scripted
+// plugin that records the requests, and the per-call context
+type override struct {
+	sg   signerBoth
+	plug *scriptPlugin
+	ctx  context.Context
+}
+
+type execResult struct {
+	term, key    string
+	signed       bool
+	sc, vcode    int64
+	shash, vhash string
+	payload, ret *ocispec.Descriptor
+	meta         map[string]string
+	hasMeta      bool
+	viol, frame  []string
+}
+
 type groupState struct {
 	sg   signerBoth
 	plug *scriptPlugin
@@ -697,22 +730,20 @@ func runC07(a *Args) error {
 	}
 	e := setup()
 	rng := NewRng(a.Seed)
-	ctx := context.Background()
-
-	var id int64
 	groups := map[string]*groupState{}
-	runCase := func(c *c07Case) {
-		my := id
-		id++
-		record := w.Want(my)
-		if !record && c.Group == "" {
-			return // (the steps of a history group always run: later steps depend on the instance's past)
-		}
+	// exec runs one sign -> verify round trip on the real API and returns the case term and the raw
+	// observations; it does not touch the case writer (the concurrency family calls it from goroutines,
+	// with a shared signer instance / per-call context in ov)
+	exec := func(c *c07Case, my int64, record bool, ov *override) *execResult {
+		res := &execResult{}
+		ctx := context.Background()
 		k := e.keys[c.Key]
 		// ----- signer
 		var plug *scriptPlugin
 		var sg signerBoth
-		if gs, ok := groups[c.Group]; ok && c.Group != "" {
+		if ov != nil {
+			sg, plug, ctx = ov.sg, ov.plug, ov.ctx
+		} else if gs, ok := groups[c.Group]; ok && c.Group != "" {
 			sg, plug = gs.sg, gs.plug
 			if plug != nil {
 				plug.sigReq, plug.envReq, plug.envTime = nil, nil, time.Time{}
@@ -777,8 +808,8 @@ func runC07(a *Args) error {
 			}
 		}
 		frameCheck := func(stage string, before frameSnap) {
-			if ch := before.diff(snapshot()); len(ch) > 0 && record {
-				w.ImplViolation(my, "library mutated caller-owned "+strings.Join(ch, "; ")+" (during "+stage+")", c, "frame")
+			if ch := before.diff(snapshot()); len(ch) > 0 {
+				res.frame = append(res.frame, "library mutated caller-owned "+strings.Join(ch, "; ")+" (during "+stage+")")
 			}
 		}
 		// ----- sign
@@ -833,10 +864,8 @@ func runC07(a *Args) error {
 		if sig != nil {
 			ct, err := CoreVerify(c.Format, sig)
 			if err != nil {
-				if record {
-					w.ImplViolation(my, "the signing API returned an envelope that notation-core-go does not verify: "+err.Error(), c, "")
-				}
-				return
+				res.viol = append(res.viol, "the signing API returned an envelope that notation-core-go does not verify: "+err.Error())
+				return res
 			}
 			var top map[string]json.RawMessage
 			var tgt map[string]json.RawMessage
@@ -848,6 +877,8 @@ func runC07(a *Args) error {
 				json.Unmarshal(top["targetArtifact"], &tgt)
 				if json.Unmarshal(ct.Payload.Content, &pl) == nil {
 					payloadTerm = CSome(descTerm(pl.TargetArtifact))
+					pd := pl.TargetArtifact
+					res.payload = &pd
 				}
 			}
 			st := ct.SignerInfo.SignedAttributes.SigningTime
@@ -912,10 +943,13 @@ func runC07(a *Args) error {
 				}
 				if err == nil {
 					retTerm = CSome(descTerm(ret))
+					rd := ret
+					res.ret = &rd
 					if len(outs) == 1 {
 						if m, err := outs[0].UserMetadata(); err == nil {
 							metaTerm = CSome(CMap(m))
 							obs["user_metadata"] = m
+							res.meta, res.hasMeta = m, true
 						}
 					}
 				}
@@ -936,12 +970,15 @@ func runC07(a *Args) error {
 				}
 				if err == nil {
 					retTerm = CSome(descTerm(ret))
+					rd := ret
+					res.ret = &rd
 					b, _ := json.Marshal(ret)
 					obs["returned_descriptor"] = string(b)
 					if out != nil {
 						if m, err := out.UserMetadata(); err == nil {
 							metaTerm = CSome(CMap(m))
 							obs["user_metadata"] = m
+							res.meta, res.hasMeta = m, true
 						}
 					}
 				}
@@ -973,10 +1010,23 @@ func runC07(a *Args) error {
 		cc := *c
 		cc.Obs = nil
 		kb, _ := json.Marshal(cc)
-		if !record {
+		res.term, res.key, res.signed, res.sc, res.vcode, res.shash, res.vhash = term, string(kb), sig != nil, sc, vcode, shash, vhash
+		return res
+	}
+
+	var id int64
+	add := func(my int64, c *c07Case, res *execResult) {
+		for _, v := range res.viol {
+			w.ImplViolation(my, v, c, "")
+		}
+		for _, v := range res.frame {
+			w.ImplViolation(my, v, c, "frame")
+		}
+		if res.term == "" {
 			return
 		}
-		w.Add(my, term, c, string(kb), sig != nil)
+		sc, vcode := res.sc, res.vcode
+		w.Add(my, res.term, c, res.key, res.signed)
 		w.Count("family", c.Family)
 		w.Count("key", c.Key)
 		w.Count("format", c.Format)
@@ -993,9 +1043,28 @@ func runC07(a *Args) error {
 			w.Count("blob_size", sizeBucket(c.Blob.Size))
 		}
 	}
+	runCase := func(c *c07Case) {
+		my := id
+		id++
+		record := w.Want(my)
+		if !record && c.Group == "" {
+			return // (the steps of a history group always run: later steps depend on the instance's past)
+		}
+		res := exec(c, my, record, nil)
+		if record {
+			add(my, c, res)
+		}
+	}
 
+	// the concurrency family runs in a child process (this same binary)
+	if out := os.Getenv("VH_C07_CONC_CHILD"); out != "" {
+		return concChild(a, e, exec, out)
+	}
 	gen := &generator{rng: rng, tier: a.Tier}
-	gen.all(runCase)
+	if a.Only < concBase {
+		gen.all(runCase)
+	}
+	concParent(a, w, add)
 	// regression inputs
 	if a.Corpus != "" {
 		files, _ := filepath.Glob(filepath.Join(a.Corpus, "*.json"))
